@@ -12,7 +12,15 @@ from ..runner import Result
 from ..world import World
 from .c13 import process_budget, output_budget
 
-PATHS = ["inc1.asm", "defs.asm", "sub/inc2.asm", "lib/deep/code.asm", "x.inc", "SUB.ASM"]
+import posixpath
+
+# spelled include names: some contain one another, some are spelled with ./ or are dot-files, some sit in sub-directories
+PATHS = ["inc1.asm", "defs.asm", "sub/inc2.asm", "lib/deep/code.asm", "x.inc", "SUB.ASM", "a.asm", "data.asm", "lib/inc1.asm",
+         "./dot.asm", "./.local.asm", "./sub/inc3.asm"]
+
+
+def key_of(spelled):
+    return posixpath.normpath(spelled)
 
 
 def build_files(lines, cuts):
@@ -28,7 +36,7 @@ def build_files(lines, cuts):
             for _ in range(max(1, c.get("repeat", 1))):
                 out.append(" INCLUDE %s\n" % c["path"])     # the same file may be included more than once
             nested = [o for o in inside if o is not c and c["a"] <= o["a"] and o["b"] <= c["b"]]
-            files[c["path"]] = "".join(region(c["a"], c["b"], nested))
+            files[key_of(c["path"])] = "".join(region(c["a"], c["b"], nested))
             pos = c["b"]
         out.extend(lines[pos:b])
         return out
@@ -37,7 +45,7 @@ def build_files(lines, cuts):
     for c in cuts:
         if 0 <= c["a"] < c["b"] <= len(lines) and all(
                 (c["b"] <= o["a"] or o["b"] <= c["a"] or (o["a"] <= c["a"] and c["b"] <= o["b"]) or (c["a"] <= o["a"] and o["b"] <= c["b"]))
-                and o["path"] != c["path"] and not (o["a"] == c["a"] and o["b"] == c["b"]) for o in valid):
+                and key_of(o["path"]) != key_of(c["path"]) and not (o["a"] == c["a"] and o["b"] == c["b"]) for o in valid):
             valid.append(c)
     files["main.asm"] = "".join(region(0, len(lines), valid))
     return files, valid
@@ -52,9 +60,9 @@ def textual_expand(files, path, depth=0):
     for line in files[path].splitlines(keepends=True):
         parts = line.split(";")[0].split()
         if len(parts) == 2 and parts[0].upper() == "INCLUDE" and line[:1] in " \t":
-            out.extend(textual_expand(files, parts[1], depth + 1))
+            out.extend(textual_expand(files, key_of(parts[1]), depth + 1))
         elif len(parts) == 3 and parts[1].upper() == "INCLUDE" and line[:1] not in " \t":
-            out.extend(textual_expand(files, parts[2], depth + 1))     # a label on the INCLUDE line is replaced with the line
+            out.extend(textual_expand(files, key_of(parts[2]), depth + 1))     # a label on the INCLUDE line is replaced with the line
         else:
             out.append(line)
     return out
@@ -141,13 +149,22 @@ class C19(object):
             # it must be ignored.
             for parent in sorted(files):
                 d = parent.rsplit("/", 1)[0] if "/" in parent else ""
-                if not d:
-                    continue
                 for line in files[parent].splitlines():
                     parts = line.split()
-                    if len(parts) == 2 and parts[0] == "INCLUDE" and (d + "/" + parts[1]) not in files:
-                        files[d + "/" + parts[1]] = " FCB $EE,$EE,$EE\nDECOY EQU $DEC0\n"
-                        files["\0decoys"] = "x"
+                    if "INCLUDE" not in parts[:2] or len(parts) < 2:
+                        continue
+                    spelled = parts[-1]
+                    wrong = set()
+                    if d:
+                        wrong.add(key_of(d + "/" + spelled))                     # next to the including file
+                    wrong.add(key_of(spelled.lstrip("./")))                     # leading dots and slashes eaten
+                    wrong.add(posixpath.basename(spelled))                      # directory part dropped
+                    wrong.add(key_of(spelled).lower())                          # case folded
+                    wrong.add(key_of(spelled).upper())
+                    for wkey in sorted(wrong):
+                        if wkey and wkey not in files and wkey != key_of(spelled) and not any(k.startswith(wkey + "/") for k in files):
+                            files[wkey] = " FCB $EE,$EE,$EE\nDECOY EQU $DEC0\n"
+                            files["\0decoys"] = "x"
         if fault == "missing" and included:
             victim = included[case.get("victim", 0) % len(included)]
             del files[victim]
@@ -208,12 +225,12 @@ class C19(object):
         total = sum(t.count("\n") + 1 for t in files.values()) + len(case["lines"])
         unreadable = None
         if case.get("fault") == "unreadable" and fired:
-            inc = sorted(p for p in files if p not in ("main.asm", "empty.asm", "notes.asm"))
+            inc = sorted(p for p in files if p not in ("main.asm", "empty.asm", "notes.asm"))   # (keys)
             # only a file that main.asm really reaches counts: take the first INCLUDE line of main.asm
             for line in files["main.asm"].splitlines():
                 parts = line.split()
-                if "INCLUDE" in parts[:2] and parts[-1] in files:
-                    unreadable = parts[-1]
+                if "INCLUDE" in parts[:2] and key_of(parts[-1]) in files:
+                    unreadable = key_of(parts[-1])
                     break
             if unreadable is None:
                 fired = None
